@@ -414,6 +414,62 @@ def dispatch_scenario(ctx, nops, first, max_resp=2, rich=True):
                 pass
 
 
+def filters_scenario(ctx):
+    """source / receive-port filters: a responder fires iff EVERY filter it was given matches the message"""
+    from sc3.base import responders as rpd, netaddr as nad, main as _m
+    main = _m.main
+    my_port = main._osc_interface.port
+    fk = ctx.choose('filter', 5)           # 0 none, 1 src (host+port), 2 recv_port, 3 both, 4 src without port
+    sk = ctx.choose('sender', 3)           # 0 (h1, p1), 1 (h2, p1) same port other host, 2 (h1, p2) other port
+    rk = ctx.choose('recvport', 2)         # 0 the library's port, 1 another one
+    matching = bool(ctx.choose('matching', 2))
+    rec = {'mode': 'rt', 'kind': 'filters', 'sel': dict(filter=fk, sender=sk, recvport=rk, matching=int(matching))}
+    src = nad.NetAddr('127.0.0.1', 9001)
+    src_np = nad.NetAddr('127.0.0.1', None)
+    snd = [nad.NetAddr('127.0.0.1', 9001), nad.NetAddr('127.0.0.2', 9001), nad.NetAddr('127.0.0.1', 9002)][sk]
+    rport = my_port if rk == 0 else my_port + 1
+    for r in list(rpd.OscFunc._all_func_proxies):
+        r.free()
+    fired = []
+    kw = {}
+    if fk in (1, 3):
+        kw['src_id'] = src
+    if fk == 4:
+        kw['src_id'] = src_np
+    if fk in (2, 3):
+        kw['recv_port'] = my_port
+    ctor = rpd.OscFunc.matching if matching else rpd.OscFunc
+    obj = ctor(lambda msg, time, addr, port: fired.append((list(msg), addr, port)), '/x', **kw)
+    try:
+        for f in list(type(main._osc_interface)._recv_functions):
+            f(['/x', 1], 3.5, snd, rport)
+    finally:
+        obj.free()
+    want = True
+    if fk in (1, 3) and sk != 0:
+        want = False
+    if fk == 4 and sk == 1:
+        want = False          # host differs; a source without port accepts any port of that host
+    if fk in (2, 3) and rk != 0:
+        want = False
+    if bool(fired) != want or len(fired) > 1:
+        raise Violation(f'responder with filters {sorted(kw)} (src {kw.get("src_id")}, recv_port {kw.get("recv_port")}) '
+                        f'and a message from {snd} received on port {rport}: fired {len(fired)} time(s), expected '
+                        f'{int(want)}', None, {'key': 'c18:filters', 'replay': rec})
+    ctx.obligations += 1
+    ctx.discharged += 1
+    ctx.note('filters')
+    return {'sel': rec['sel']}
+
+
+def job_filters(j):
+    st = explore(filters_scenario, max_paths=5000, timeout_ms=5000, stop_on_violation=True)
+    d = st.as_dict()
+    for v in d['violations']:
+        v['data']['replay']['what'] = v['what']
+    return d
+
+
 def job_dispatch(j):
     st = explore(lambda c: dispatch_scenario(c, j['nops'], j['first'], j.get('max_resp', 2), j.get('rich', True)), max_paths=400000, timeout_ms=10000,
                  stop_on_violation=True)
@@ -645,6 +701,12 @@ def replay(rec):
         want = ref_match(tokens, key)
         return None if bool(got) == want else f'pattern {"".join(tokens)!r} vs key {key!r}: implementation says ' \
                                               f'{bool(got)}, OSC 1.0 says {want}'
+    if kind == 'filters':
+        try:
+            filters_scenario(_CCtx(dict(rec['sel'])))
+        except Violation as v:
+            return v.what
+        return None
     if kind == 'dispatch':
         vals = dict(rec.get('values', {}))
         try:
@@ -722,6 +784,9 @@ def main(tier, seed):
     djobs += [dict(nops=4, first=[a, b], max_resp=2, rich=True) for a in (0, 1) for b in range(len(OPS))]
     for r in run_jobs('vf.props.c18', 'job_dispatch', djobs, 'rt'):
         chk.add('dispatch', r)
+    for r in run_jobs('vf.props.c18', 'job_filters', [dict()], 'rt'):
+        chk.add('filters', r)
+    chk.require_notes('filters', ['filters'])
     for r in run_jobs('vf.props.c18', 'job_bundle', [dict()], 'rt'):
         chk.add('hostile_bundle', r)
     for r in run_jobs('vf.props.c18', 'job_registry', [dict(nops=4 if tier == 'quick' else 5)], 'rt'):
